@@ -180,7 +180,7 @@ def effective_minor(py_version):
     parser actually uses (`min(py_version, sys.version_info)`, or the running version when the option is not given)."""
     import sys
 
-    eff = min(tuple(py_version), tuple(sys.version_info)) if py_version else tuple(sys.version_info)
+    eff = min(tuple(py_version), tuple(sys.version_info[:3])) if py_version else tuple(sys.version_info)
     ms = [m for m in range(0, 40) if (3, m) <= eff]
     return max(ms) if ms else 0
 
